@@ -222,7 +222,7 @@ fn check_mode<S: anstream::stream::RawStream>(mode: &str, s: &AutoStream<S>, ter
 const SENTINEL: &[u8] = b"\x00<into_inner sentinel>";
 
 fn tmp_path(t: &Trace, tag: &str) -> std::path::PathBuf {
-    let dir = std::path::PathBuf::from("/verif/target/tmp");
+    let dir = std::path::PathBuf::from(&format!("{}/target/tmp", crate::report::verif_root()));
     let _ = std::fs::create_dir_all(&dir);
     dir.join(format!("c08-{}-{}-{}-{:?}-{tag}", std::process::id(), t.seed, t.run, std::thread::current().id()))
 }
